@@ -25,7 +25,7 @@ pub struct C09;
 #[derive(Clone, Debug, Serialize, Deserialize, Hash)]
 pub enum Case {
     /// the three bitvector types from the same bits
-    Three { bits: BitsSpec, consumed: Vec<u16>, extra: Vec<u64> },
+    Three { bits: BitsSpec, consumed: Vec<u16>, extra: Vec<u64>, #[serde(default)] route: u8 },
     /// sparse vector in a universe that cannot be materialised
     BigSparse { set: BigSet, extra: Vec<u64> },
     /// run-length vector with huge runs
@@ -89,17 +89,27 @@ macro_rules! nth_total {
             ensure!(got.is_none(), $name, "nth_back({}) with {} items remaining returned {:?}, must be None", $k, remaining, got);
             ensure_eq!(it.len(), 0, $name, "len() after nth_back({}) beyond the remainder", $k);
             ensure!(it.next_back().is_none() && it.next().is_none(), $name, "next()/next_back() after nth_back({}) beyond the remainder", $k);
+            // the same from the other side: items consumed from the BACK, then nth() beyond what remains
+            let mut it = $make;
+            for _ in 0..$j {
+                it.next_back();
+            }
+            let got = it.nth($k);
+            ensure!(got.is_none(), $name, "nth({}) after {} next_back() calls with {} items remaining returned {:?}, must be None", $k, $j, remaining, got);
+            ensure_eq!(it.len(), 0, $name, "len() after nth({}) beyond the remainder on an iterator consumed from the back", $k);
+            ensure!(it.next().is_none() && it.next_back().is_none(), $name, "next()/next_back() after nth({}) beyond the remainder", $k);
         }
     }};
     (@back false, $make:expr, $total:expr, $j:expr, $k:expr, $name:expr) => {};
 }
 
-fn run_three(bits: &Bits, consumed: &[u16], extra: &[u64], rep: &mut Report) -> Result<(), Fail> {
+fn run_three(bits: &Bits, consumed: &[u16], extra: &[u64], route: u8, rep: &mut Report) -> Result<(), Fail> {
     let model = SetModel::from_bits(bits);
     let n = bits.len;
     let m = model.m();
     let z = model.zeros();
-    let mut bv = BitVector::from(crate::props::c01::raw_by_set_bit(bits));
+    // any public construction route of the plain vector (pushes with popped junk, complement(), iterators, conversions, ...)
+    let mut bv = crate::props::c01::build_route(bits, route, &[route, 5, 1, 17]);
     bv.enable_rank();
     bv.enable_select();
     bv.enable_select_zero();
@@ -278,7 +288,7 @@ impl Prop for C09 {
             2 => (proptest::collection::vec((0u32..70, 0u32..70), 0..20), 0u32..70).prop_map(|(r, t)| BitsSpec::Runs(r, t)),
             2 => bits_spec(max_bits),
         ];
-        let three = (small_bits, proptest::collection::vec(any::<u16>(), 0..3), extra.clone()).prop_map(|(bits, consumed, extra)| Case::Three { bits, consumed, extra });
+        let three = (small_bits, proptest::collection::vec(any::<u16>(), 0..3), extra.clone(), any::<u8>()).prop_map(|(bits, consumed, extra, route)| Case::Three { bits, consumed, extra, route });
         let big_sparse = (prop_oneof![Just(usize::MAX), Just(usize::MAX - 1), Just(1usize << 63), (1usize << 33)..usize::MAX], proptest::collection::vec(any::<u64>(), 1..40), any::<bool>(), any::<bool>(), extra.clone())
             .prop_map(|(n, raw, first, last, extra)| Case::BigSparse { set: BigSet { n, raw, runs: vec![], edges: vec![], first, last }, extra });
         let cycle = proptest::collection::vec((0u8..7, 1u8..8), 1..4);
@@ -293,9 +303,9 @@ impl Prop for C09 {
         let mut rep = Report::new();
         let mut nontrivial = false;
         match case {
-            Case::Three { bits, consumed, extra } => {
+            Case::Three { bits, consumed, extra, route } => {
                 let bits = bits.expand();
-                run_three(&bits, consumed, extra, &mut rep)?;
+                run_three(&bits, consumed, extra, *route, &mut rep)?;
                 nontrivial = bits.count_ones() > 0;
                 rep.class("three-types");
                 rep.class_if(bits.len == 0, "three-types:len=0");
